@@ -240,6 +240,19 @@ def gen_isa(rnd, *, want_macros=None, small=False, allow_numeric_enum=False):
             symbols[n] = str(rnd.randrange(0, 9))
         predefined['symbols'] = [{'name': n, 'value': v} for n, v in symbols.items()]
 
+    special = {}
+    if addr_bits >= 16 and len(instructions) % 2 == 0 and 'fjmp' not in instructions:
+        # a "fast jump": only the low byte of the target is encoded and the target must lie in the page of the
+        # instruction; bound to a zone that does NOT start on a page boundary. Never used by ProgGen (a valid use
+        # depends on the instruction's own address); the checks place it deliberately
+        zu = top // 2 + 1 + 0x280
+        predefined.setdefault('memory_zones', []).append({'name': 'ZU', 'start': zu, 'end': zu + 0x1ff})
+        opsets['faddr'] = {'operand_values': {'faddr': {'type': 'address', 'bytecode': {'value': 7, 'size': 4},
+                                                        'argument': {'size': 8, 'byte_align': True, 'slice_lsb': True,
+                                                                     'match_address_msb': True, 'memory_zone': 'ZU'}}}}
+        instructions['fjmp'] = {'bytecode': {'value': 0xF, 'size': 4},
+                                'operands': {'count': 1, 'operand_sets': {'list': ['faddr']}}}
+        special['fjmp'] = {'zone': 'ZU', 'start': zu, 'page_bits': 8}
     isa = {'description': 'generated ISA', 'general': general, 'operand_sets': opsets, 'instructions': instructions}
     if macros:
         isa['macros'] = macros
@@ -247,7 +260,7 @@ def gen_isa(rnd, *, want_macros=None, small=False, allow_numeric_enum=False):
         isa['predefined'] = predefined
     info = {'addr_bits': addr_bits, 'endian': endian, 'registers': registers, 'sigs': sigs, 'macros': msigs,
             'consts': consts, 'zones': zones, 'data': data, 'symbols': symbols, 'origin': origin,
-            'page_size': page_size, 'embedded': embedded, 'enum_keys': enum_keys, 'width': width,
+            'page_size': page_size, 'embedded': embedded, 'special': special, 'enum_keys': enum_keys, 'width': width,
             'ireg': registers[:3], 'fmt': fmt, 'name': general.get('identifier', {}).get('name', 'isa').replace(' ', '_'),
             'version': general.get('identifier', {}).get('version', '0.0.1')}
     return isa, info
